@@ -22,6 +22,21 @@ import numpy as np
 from . import findlib as fl
 
 CHIRAL = {"chiral", "asym4", "asym5"}          # patterns whose mirror image is NOT an occurrence
+
+# Patterns whose FIRST atoms are symmetry-related while only some of the orderings can be rotated into place (the
+# others are mirror images): non-planar, mirror-only symmetric (CH2FCl-like, the two H first; the mirror plane y = 0
+# holds C, F, Cl) and C3v (CH3F-like, the three H first).  Each copy then yields candidate tuples from SEVERAL start
+# atoms, some passing the rotation check and some not — how they are grouped matters (helpers.group_duplicates).
+MIRROR_FIRST = {
+    "h2cfcl": (["H", "H", "C", "F", "Cl"], [(-0.5, 0.875, -0.375), (-0.5, -0.875, -0.375), (0, 0, 0), (0, 0, 1.375),
+                                            (1.625, 0, -0.625)]),
+    "h2cclf": (["H", "H", "C", "Cl", "F"], [(0.5, 0.875, -0.25), (0.5, -0.875, -0.25), (0, 0, 0), (-1.25, 0, -0.875),
+                                            (0.125, 0, 1.375)]),
+    "h3cf": (["H", "H", "H", "C", "F"], [(1, 0, -0.375), (-0.5, 0.875, -0.375), (-0.5, -0.875, -0.375), (0, 0, 0),
+                                         (0, 0, 1.375)]),
+}
+for _name, _val in MIRROR_FIRST.items():
+    fl.PATTERNS.setdefault(_name, _val)
 POSES = ["random", "identity", "axis90", "axis180", "anti"]
 FRACS = [0.0, 0.01, 0.5, 0.99, 0.999]
 CELLS = ["ortho", "tri+", "tri-", "rot", "upper", "sparse", "ortho-1", "ortho-2", "ortho-3", "neg-mixed"]
@@ -341,7 +356,8 @@ def crossings(case):
     return best
 
 
-def random_case(rng, atol=0.05, pname=None, cell_kind=None, boundary=None, tight=None, perturb_div=8.0, ndecoy=None):
+def random_case(rng, atol=0.05, pname=None, cell_kind=None, boundary=None, tight=None, perturb_div=8.0, ndecoy=None,
+                listing=None):
     pname = pname or rng.choice(list(fl.PATTERNS))
     cell_kind = cell_kind or rng.choice(["ortho", "ortho", "tri+", "tri-", "rot", "upper", "sparse",
                                          "ortho-1", "ortho-2", "ortho-3", "neg-mixed"])
@@ -357,8 +373,42 @@ def random_case(rng, atol=0.05, pname=None, cell_kind=None, boundary=None, tight
         frac = [rng.choice(FRACS) if rng.random() < 0.7 else rng.random() for _ in range(3)] if b else None
         copies.append((pose, frac))
     nd = (0 if tight else rng.randint(0, 3)) if ndecoy is None else ndecoy
-    return planted(rng, pname, cell_kind, copies, atol=atol, ndecoy=nd, perturb_div=perturb_div, tight=tight,
+    case = planted(rng, pname, cell_kind, copies, atol=atol, ndecoy=nd, perturb_div=perturb_div, tight=tight,
                    mirror_copies=1 if (rng.random() < 0.25 and not tight) else 0)
+    if case is not None and listing is not False:
+        r = rng.random()
+        mode = listing or ("slot-major" if r < 0.2 else "random" if r < 0.3 else "reversed" if r < 0.35 else None)
+        if mode:
+            case = relist(case, rng, mode)
+    return case
+
+
+def relist(case, rng, mode):
+    """the same structure with its atoms LISTED in another order (planted keys renamed accordingly):
+       slot-major : all first atoms of the copies, then all second atoms, ... (as when a file is sorted by atom label),
+                    then the decoy atoms;   reversed : last atom first;   random : a random permutation.
+    The occurrence set is a property of the crystal, so the planted keys are simply mapped through the renaming."""
+    n = len(case["elems"])
+    k = len(case["pattern"]["elems"])
+    if mode == "slot-major":
+        in_copy = {}
+        for grp in case["planted"]:
+            if len(grp) == k and list(grp) == list(range(grp[0], grp[0] + k)):
+                for slot, i in enumerate(grp):
+                    in_copy[i] = slot
+        order = sorted(range(n), key=lambda i: (in_copy.get(i, k), i))
+    elif mode == "reversed":
+        order = list(range(n - 1, -1, -1))
+    else:
+        order = list(range(n))
+        rng.shuffle(order)
+    new_of = {old: new for new, old in enumerate(order)}            # new[j] = old[order[j]]
+    out = dict(case)
+    out["elems"] = [case["elems"][i] for i in order]
+    out["pos"] = [case["pos"][i] for i in order]
+    out["planted"] = sorted(tuple(sorted(new_of[i] for i in grp)) for grp in case["planted"])
+    out["info"] = dict(case["info"], listing=mode)
+    return out
 
 
 def mk_pattern(case, pos=None):
@@ -564,3 +614,16 @@ def distorted_case(rng, atol=None):
         if not amb and ins == {tuple(range(n))}:
             return case, hints, atol
     return None
+
+
+def mirror_first_case(rng, atol=0.05, pname=None, mode="slot-major"):
+    """>= 2 copies of a pattern whose first atoms are symmetry-related (MIRROR_FIRST), some straddling the cell
+    boundary, the structure's atoms listed slot-major (all first atoms of the copies, then all second atoms, ...)"""
+    pname = pname or rng.choice(list(MIRROR_FIRST))
+    copies = [(rng.choice(POSES), None if rng.random() < 0.5 else [rng.choice(FRACS) for _ in range(3)])
+              for _ in range(rng.randint(2, 4))]
+    case = planted(rng, pname, rng.choice(["ortho", "ortho", "tri+", "tri-", "rot", "upper"]), copies, atol=atol,
+                   ndecoy=rng.randint(0, 1))
+    if case is None or len(case["planted"]) < 2:
+        return None
+    return relist(case, rng, mode)
